@@ -40,18 +40,23 @@ Print Assumptions C15_final_states_are_top.
    requested -- at tick k, Task.wait has returned by tick k, and it returns
    the state the task shows at the tick of the return. *)
 Theorem C15_task_wait_returns_on_requested_or_final :
-  forall (r : req) (T term : option nat) (fuel : nat) (tr : ttraj) (k : nat),
+  forall (r : req) (T : tmo) (term : option nat) (fuel : nat) (tr : ttraj) (k : nat),
     k <= fuel ->
     tmem (at_ tr k) (norm tfinal r) || tfin (at_ tr k) = true ->
     exists t, t <= k /\ m_task_wait r T term fuel tr = Returned (VOne (at_ tr t)) t.
 Proof. exact (entity_returns_by tstate_beq tfinal). Qed.
 Print Assumptions C15_task_wait_returns_on_requested_or_final.
 
-(* With a timeout of T > 0 ticks Task.wait has returned by tick T. *)
+(* Timeouts (T : tmo = no timeout | a negative number | n ticks).  `deadline T`
+   is the first tick d at which the code's test `timeout and timeout <= elapsed`
+   holds: d = n for n > 0 ticks, d = 0 for a NEGATIVE timeout (the remainder of
+   a used-up time budget), none for None and 0.  Task.wait tests the timeout
+   after each sleep: it has returned by tick max d 1 -- by tick T for a
+   positive timeout, at its first check (tick 1) for a negative one. *)
 Theorem C15_task_wait_returns_on_timeout :
-  forall (r : req) (term : option nat) (fuel : nat) (tr : ttraj) (t0 : nat),
-    S t0 <= fuel ->
-    exists t, t <= S t0 /\ m_task_wait r (Some (S t0)) term fuel tr = Returned (VOne (at_ tr t)) t.
+  forall (r : req) (T : tmo) (term : option nat) (fuel : nat) (tr : ttraj) (d : nat),
+    deadline T = Some d -> Nat.max d 1 <= fuel ->
+    exists t, t <= Nat.max d 1 /\ m_task_wait r T term fuel tr = Returned (VOne (at_ tr t)) t.
 Proof. exact (entity_timeout tstate_beq tfinal). Qed.
 Print Assumptions C15_task_wait_returns_on_timeout.
 
@@ -59,7 +64,7 @@ Print Assumptions C15_task_wait_returns_on_timeout.
    timeout, by the manager terminating, or by the task showing a requested or
    final state at tick t; and it never returns anything but the actual state. *)
 Theorem C15_task_wait_justified_and_truthful :
-  forall (r : req) (T term : option nat) (fuel : nat) (tr : ttraj),
+  forall (r : req) (T : tmo) (term : option nat) (fuel : nat) (tr : ttraj),
     (forall v t, m_task_wait r T term fuel tr = Returned v t ->
        timed_out T t = true \/ term_set term t = true \/
        tmem (at_ tr t) (norm tfinal r) || tfin (at_ tr t) = true) /\
@@ -76,9 +81,9 @@ Print Assumptions C15_task_wait_justified_and_truthful.
    of the trajectory, the timeout and the termination tick) means that the
    call never returns: more fuel does not help. *)
 Theorem C15_task_wait_spins_is_forever :
-  forall (r : req) (T term : option nat) (fuel : nat) (tr : ttraj),
+  forall (r : req) (T : tmo) (term : option nat) (fuel : nat) (tr : ttraj),
     length (snd tr) + 1 <= fuel ->
-    (forall t0, T = Some t0 -> t0 + 1 <= fuel) ->
+    (forall d, deadline T = Some d -> d + 1 <= fuel) ->
     (forall k, term = Some k -> k + 1 <= fuel) ->
     m_task_wait r T term fuel tr = Spins ->
     forall fuel', m_task_wait r T term fuel' tr = Spins.
@@ -87,8 +92,8 @@ Print Assumptions C15_task_wait_spins_is_forever.
 
 (* all oracle clauses hold for Task.wait on every input *)
 Theorem C15_task_wait_oracle :
-  forall (r : req) (T term : option nat) (fuel : nat) (tr : ttraj),
-    horizon [tr] + 2 <= fuel -> (forall t0, T = Some t0 -> t0 + 2 <= fuel) ->
+  forall (r : req) (T : tmo) (term : option nat) (fuel : nat) (tr : ttraj),
+    horizon [tr] + 2 <= fuel -> (forall d, deadline T = Some d -> d + 2 <= fuel) ->
     clauses tstate_beq tfinal tvalue 0 false false (norm tfinal r) T term (Some [tr])
             (m_task_wait r T term fuel tr) = all_true.
 Proof. exact (entity_clauses tstate_beq tfinal tvalue t_beq_spec). Qed.
@@ -96,7 +101,7 @@ Print Assumptions C15_task_wait_oracle.
 
 (* ---- Pilot.wait --------------------------------------------------------- *)
 Theorem C15_pilot_wait_returns_on_requested_or_final :
-  forall (r : req) (T term : option nat) (fuel : nat) (tr : ptraj) (k : nat),
+  forall (r : req) (T : tmo) (term : option nat) (fuel : nat) (tr : ptraj) (k : nat),
     k <= fuel ->
     pmem (at_ tr k) (norm pfinal r) || pfin (at_ tr k) = true ->
     exists t, t <= k /\ m_pilot_wait r T term fuel tr = Returned (VOne (at_ tr t)) t.
@@ -104,14 +109,14 @@ Proof. exact (entity_returns_by pstate_beq pfinal). Qed.
 Print Assumptions C15_pilot_wait_returns_on_requested_or_final.
 
 Theorem C15_pilot_wait_returns_on_timeout :
-  forall (r : req) (term : option nat) (fuel : nat) (tr : ptraj) (t0 : nat),
-    S t0 <= fuel ->
-    exists t, t <= S t0 /\ m_pilot_wait r (Some (S t0)) term fuel tr = Returned (VOne (at_ tr t)) t.
+  forall (r : req) (T : tmo) (term : option nat) (fuel : nat) (tr : ptraj) (d : nat),
+    deadline T = Some d -> Nat.max d 1 <= fuel ->
+    exists t, t <= Nat.max d 1 /\ m_pilot_wait r T term fuel tr = Returned (VOne (at_ tr t)) t.
 Proof. exact (entity_timeout pstate_beq pfinal). Qed.
 Print Assumptions C15_pilot_wait_returns_on_timeout.
 
 Theorem C15_pilot_wait_justified_and_truthful :
-  forall (r : req) (T term : option nat) (fuel : nat) (tr : ptraj),
+  forall (r : req) (T : tmo) (term : option nat) (fuel : nat) (tr : ptraj),
     (forall v t, m_pilot_wait r T term fuel tr = Returned v t ->
        timed_out T t = true \/ term_set term t = true \/
        pmem (at_ tr t) (norm pfinal r) || pfin (at_ tr t) = true) /\
@@ -125,9 +130,9 @@ Qed.
 Print Assumptions C15_pilot_wait_justified_and_truthful.
 
 Theorem C15_pilot_wait_spins_is_forever :
-  forall (r : req) (T term : option nat) (fuel : nat) (tr : ptraj),
+  forall (r : req) (T : tmo) (term : option nat) (fuel : nat) (tr : ptraj),
     length (snd tr) + 1 <= fuel ->
-    (forall t0, T = Some t0 -> t0 + 1 <= fuel) ->
+    (forall d, deadline T = Some d -> d + 1 <= fuel) ->
     (forall k, term = Some k -> k + 1 <= fuel) ->
     m_pilot_wait r T term fuel tr = Spins ->
     forall fuel', m_pilot_wait r T term fuel' tr = Spins.
@@ -135,8 +140,8 @@ Proof. exact (entity_spins_forever pstate_beq pfinal). Qed.
 Print Assumptions C15_pilot_wait_spins_is_forever.
 
 Theorem C15_pilot_wait_oracle :
-  forall (r : req) (T term : option nat) (fuel : nat) (tr : ptraj),
-    horizon [tr] + 2 <= fuel -> (forall t0, T = Some t0 -> t0 + 2 <= fuel) ->
+  forall (r : req) (T : tmo) (term : option nat) (fuel : nat) (tr : ptraj),
+    horizon [tr] + 2 <= fuel -> (forall d, deadline T = Some d -> d + 2 <= fuel) ->
     clauses pstate_beq pfinal pvalue 0 false false (norm pfinal r) T term (Some [tr])
             (m_pilot_wait r T term fuel tr) = all_true.
 Proof. exact (entity_clauses pstate_beq pfinal pvalue p_beq_spec). Qed.
@@ -150,7 +155,7 @@ Print Assumptions C15_pilot_wait_oracle.
    the return (a list in the order asked for, or the one state for a single
    uid).  (wait_tasks first looks at the tasks at tick 1.) *)
 Theorem C15_wait_tasks_returns_on_requested_or_final :
-  forall (r : req) (T term : option nat) (fuel : nat) (tab : ttable) (u : uidsel)
+  forall (r : req) (T : tmo) (term : option nat) (fuel : nat) (tab : ttable) (u : uidsel)
          (aw : list ttraj) (k : nat),
     awaited_tasks tab u = Some aw -> 1 <= k <= fuel ->
     (forall tr, In tr aw -> exists j, 1 <= j <= k /\
@@ -169,7 +174,7 @@ Print Assumptions C15_wait_tasks_returns_on_requested_or_final.
    with the tasks' actual states.  (Task.wait, Pilot.wait and wait_pilots are
    membership based; this reading is not claimed for them.) *)
 Theorem C15_wait_tasks_returns_when_reached :
-  forall (r : req) (T term : option nat) (fuel : nat) (tab : ttable) (u : uidsel)
+  forall (r : req) (T : tmo) (term : option nat) (fuel : nat) (tab : ttable) (u : uidsel)
          (aw : list ttraj) (k : nat),
     awaited_tasks tab u = Some aw -> 1 <= k <= fuel ->
     (forall tr, In tr aw -> exists j, 1 <= j <= k /\
@@ -179,20 +184,32 @@ Theorem C15_wait_tasks_returns_when_reached :
 Proof. exact (wait_tasks_returns_when_reached tstate_beq tfinal tvalue t_beq_spec t_final_ne). Qed.
 Print Assumptions C15_wait_tasks_returns_when_reached.
 
-(* all oracle clauses (truthful; timely; timeout: returned by T+1; justified:
+(* wait_tasks tests the timeout BEFORE its first sleep: with deadline d it has
+   returned by tick d with the tasks' actual states -- for a negative timeout
+   (d = 0) at once, without polling, whatever the tasks do. *)
+Theorem C15_wait_tasks_returns_on_timeout :
+  forall (r : req) (T : tmo) (term : option nat) (fuel : nat) (tab : ttable) (u : uidsel)
+         (aw : list ttraj) (d : nat),
+    awaited_tasks tab u = Some aw -> deadline T = Some d -> d <= fuel ->
+    exists v t, t <= d /\ m_wait_tasks r T term fuel tab u = Returned v t /\
+                ok_truthful tstate_beq (as_list u) aw (Returned v t) = true.
+Proof. exact (wait_tasks_timeout tstate_beq tfinal tvalue t_beq_spec t_final_ne). Qed.
+Print Assumptions C15_wait_tasks_returns_on_timeout.
+
+(* all oracle clauses (truthful; timely; timeout: returned by deadline+1; justified:
    no early return; no exception) hold for wait_tasks on every input with
    known uids; an unknown uid raises KeyError *)
 Theorem C15_wait_tasks_oracle :
-  forall (r : req) (T term : option nat) (fuel : nat) (tab : ttable) (u : uidsel) (aw : list ttraj),
+  forall (r : req) (T : tmo) (term : option nat) (fuel : nat) (tab : ttable) (u : uidsel) (aw : list ttraj),
     awaited_tasks tab u = Some aw ->
-    horizon aw + 2 <= fuel -> (forall t0, T = Some t0 -> t0 + 2 <= fuel) ->
+    horizon aw + 2 <= fuel -> (forall d, deadline T = Some d -> d + 2 <= fuel) ->
     clauses tstate_beq tfinal tvalue 1 true (as_list u) (norm tfinal r) T term (Some aw)
             (m_wait_tasks r T term fuel tab u) = all_true.
 Proof. exact (wait_tasks_clauses tstate_beq tfinal tvalue t_beq_spec t_final_top t_final_ne). Qed.
 Print Assumptions C15_wait_tasks_oracle.
 
 Theorem C15_wait_tasks_unknown_uid :
-  forall (r : req) (T term : option nat) (fuel : nat) (tab : ttable) (u : uidsel),
+  forall (r : req) (T : tmo) (term : option nat) (fuel : nat) (tab : ttable) (u : uidsel),
     awaited_tasks tab u = None -> m_wait_tasks r T term fuel tab u = Raised KeyError.
 Proof. exact (wait_tasks_unknown_uid tstate_beq tfinal tvalue t_final_ne). Qed.
 Print Assumptions C15_wait_tasks_unknown_uid.
@@ -204,7 +221,7 @@ Print Assumptions C15_wait_tasks_unknown_uid.
    state stays accounted for when it moves on -- wait_pilots has returned by
    tick k+1 with the pilots' actual states. *)
 Theorem C15_wait_pilots_returns_on_requested_or_final :
-  forall (r : req) (T term : option nat) (fuel : nat) (tab : ptable) (u : uidsel)
+  forall (r : req) (T : tmo) (term : option nat) (fuel : nat) (tab : ptable) (u : uidsel)
          (aw : list ptraj) (k : nat),
     awaited_pilots pstate_beq pfinal tab u = Some aw -> S k <= fuel ->
     (forall tr, In tr aw -> exists j, j <= k /\
@@ -214,17 +231,28 @@ Theorem C15_wait_pilots_returns_on_requested_or_final :
 Proof. exact (wait_pilots_returns_by pstate_beq pfinal p_beq_spec). Qed.
 Print Assumptions C15_wait_pilots_returns_on_requested_or_final.
 
+(* wait_pilots tests the timeout at every poll while pilots are pending: with
+   deadline d it has returned by tick d+1 (by tick 1 for a negative timeout). *)
+Theorem C15_wait_pilots_returns_on_timeout :
+  forall (r : req) (T : tmo) (term : option nat) (fuel : nat) (tab : ptable) (u : uidsel)
+         (aw : list ptraj) (d : nat),
+    awaited_pilots pstate_beq pfinal tab u = Some aw -> deadline T = Some d -> S d <= fuel ->
+    exists v t, t <= S d /\ m_wait_pilots r T term fuel tab u = Returned v t /\
+                ok_truthful pstate_beq (as_list u) aw (Returned v t) = true.
+Proof. exact (wait_pilots_timeout pstate_beq pfinal p_beq_spec). Qed.
+Print Assumptions C15_wait_pilots_returns_on_timeout.
+
 Theorem C15_wait_pilots_oracle :
-  forall (r : req) (T term : option nat) (fuel : nat) (tab : ptable) (u : uidsel) (aw : list ptraj),
+  forall (r : req) (T : tmo) (term : option nat) (fuel : nat) (tab : ptable) (u : uidsel) (aw : list ptraj),
     awaited_pilots pstate_beq pfinal tab u = Some aw ->
-    horizon aw + 2 <= fuel -> (forall t0, T = Some t0 -> t0 + 2 <= fuel) ->
+    horizon aw + 2 <= fuel -> (forall d, deadline T = Some d -> d + 2 <= fuel) ->
     clauses pstate_beq pfinal pvalue 0 false (as_list u) (norm pfinal r) T term (Some aw)
             (m_wait_pilots r T term fuel tab u) = all_true.
 Proof. exact (wait_pilots_clauses pstate_beq pfinal pvalue p_beq_spec). Qed.
 Print Assumptions C15_wait_pilots_oracle.
 
 Theorem C15_wait_pilots_unknown_uid :
-  forall (r : req) (T term : option nat) (fuel : nat) (tab : ptable) (u : uidsel),
+  forall (r : req) (T : tmo) (term : option nat) (fuel : nat) (tab : ptable) (u : uidsel),
     awaited_pilots pstate_beq pfinal tab u = None -> m_wait_pilots r T term fuel tab u = Raised ValueError.
 Proof. exact (wait_pilots_unknown_uid pstate_beq pfinal). Qed.
 Print Assumptions C15_wait_pilots_unknown_uid.
@@ -235,25 +263,32 @@ Print Assumptions C15_wait_pilots_unknown_uid.
    final makes an untimed wait poll for ever; two tasks, the later final at
    tick 3, wait_tasks returns both states at tick 3 *)
 Example C15_nonvacuous :
-  m_task_wait (ROne T_DONE) None None 10 (T_NEW, [T_AGENT_EXECUTING; T_FAILED]) = Returned (VOne T_FAILED) 2 /\
-  m_task_wait RNone None None 10 (T_NEW, [T_AGENT_EXECUTING; T_CANCELED; T_DONE]) = Returned (VOne T_CANCELED) 2 /\
-  m_pilot_wait (ROne P_DONE) (Some 3) None 10 (P_NEW, [P_PMGR_ACTIVE]) = Returned (VOne P_PMGR_ACTIVE) 3 /\
-  m_task_wait RNone None None 10 (T_NEW, [T_AGENT_EXECUTING]) = Spins /\
-  m_wait_tasks RNone None None 10 [(1%Z, (T_NEW, [T_DONE])); (2%Z, (T_NEW, [T_NEW; T_NEW; T_FAILED]))] UAll
+  m_task_wait (ROne T_DONE) TNone None 10 (T_NEW, [T_AGENT_EXECUTING; T_FAILED]) = Returned (VOne T_FAILED) 2 /\
+  m_task_wait RNone TNone None 10 (T_NEW, [T_AGENT_EXECUTING; T_CANCELED; T_DONE]) = Returned (VOne T_CANCELED) 2 /\
+  m_pilot_wait (ROne P_DONE) (TTicks 3) None 10 (P_NEW, [P_PMGR_ACTIVE]) = Returned (VOne P_PMGR_ACTIVE) 3 /\
+  m_task_wait RNone TNone None 10 (T_NEW, [T_AGENT_EXECUTING]) = Spins /\
+  m_wait_tasks RNone TNone None 10 [(1%Z, (T_NEW, [T_DONE])); (2%Z, (T_NEW, [T_NEW; T_NEW; T_FAILED]))] UAll
     = Returned (VList [T_DONE; T_FAILED]) 3 /\
-  m_wait_pilots (ROne P_PMGR_ACTIVE) None None 10
+  m_wait_pilots (ROne P_PMGR_ACTIVE) TNone None 10
     [(1%Z, (P_NEW, [P_PMGR_ACTIVE])); (2%Z, (P_DONE, []))] UAll = Returned (VList [P_PMGR_ACTIVE]) 2 /\
   (* pilot 1 passes through the requested state at tick 1 and has moved on
      when pilot 2 shows it at tick 3: the wait returns at tick 4 *)
-  m_wait_pilots (ROne P_PMGR_ACTIVE_PENDING) None None 12
+  m_wait_pilots (ROne P_PMGR_ACTIVE_PENDING) TNone None 12
     [(1%Z, (P_NEW, [P_PMGR_ACTIVE_PENDING; P_PMGR_ACTIVE]));
      (2%Z, (P_NEW, [P_NEW; P_NEW; P_PMGR_ACTIVE_PENDING]))] UAll
     = Returned (VList [P_PMGR_ACTIVE; P_PMGR_ACTIVE_PENDING]) 4 /\
   (* task 1 is already past the awaited state, task 2 jumps over it at tick 2
      and both linger in later non-final states: wait_tasks returns at tick 2 *)
-  m_wait_tasks (ROne T_AGENT_EXECUTING_PENDING) None None 12
+  m_wait_tasks (ROne T_AGENT_EXECUTING_PENDING) TNone None 12
     [(1%Z, (T_AGENT_EXECUTING, [])); (2%Z, (T_AGENT_SCHEDULING, [T_AGENT_SCHEDULING; T_AGENT_EXECUTING]))] UAll
-    = Returned (VList [T_AGENT_EXECUTING; T_AGENT_EXECUTING]) 2.
+    = Returned (VList [T_AGENT_EXECUTING; T_AGENT_EXECUTING]) 2 /\
+  (* a negative timeout (used-up budget): wait_tasks returns at once with the
+     actual states, Task.wait and wait_pilots at their first check (tick 1);
+     a timeout of 0 is no timeout *)
+  m_wait_tasks RNone TNeg None 10 [(1%Z, (T_NEW, [T_AGENT_EXECUTING]))] UAll = Returned (VList [T_NEW]) 0 /\
+  m_task_wait RNone TNeg None 10 (T_NEW, [T_AGENT_EXECUTING]) = Returned (VOne T_AGENT_EXECUTING) 1 /\
+  m_wait_pilots RNone TNeg None 10 [(1%Z, (P_NEW, [P_PMGR_ACTIVE]))] UAll = Returned (VList [P_NEW]) 0 /\
+  m_wait_tasks RNone (TTicks 0) None 10 [(1%Z, (T_NEW, [T_AGENT_EXECUTING]))] UAll = Spins.
 Proof. vm_compute. repeat split. Qed.
 
 (* ---- the client's end: what wait() looks at ----
